@@ -11,7 +11,6 @@ import (
 	"time"
 
 	"github.com/nuetzliches/hookaido/internal/queue"
-	"github.com/nuetzliches/hookaido/verif/l0"
 )
 
 // Wire selects the concrete spelling of the NEXT operator call.  The zero
@@ -125,7 +124,7 @@ func (s *Store) fail(c *Call, err error) error {
 	return s.infra
 }
 
-func auditHeaders(w Wire, c *Call) map[string]string {
+func auditHeaders(w Wire) map[string]string {
 	h := map[string]string{"X-Hookaido-Audit-Actor": Principal, "X-Request-ID": "hkv-oper"}
 	if !w.NoAudit {
 		h["X-Hookaido-Audit-Reason"] = "verif operator schedule"
@@ -242,7 +241,7 @@ func (s *Store) mutateIDs(op string, ids []string) (int, error) {
 		auditArgs(w, args)
 		err = s.mcpDo(c, p[1], args, &ans)
 	} else {
-		err = s.httpDo(c, "POST", p[0], map[string]any{"ids": wire}, auditHeaders(w, c), &ans)
+		err = s.httpDo(c, "POST", p[0], map[string]any{"ids": wire}, auditHeaders(w), &ans)
 	}
 	if len(c.Req) >= 400 {
 		c.Req = fmt.Sprintf("{\"ids\": [%d entries]}", len(wire))
@@ -392,7 +391,7 @@ func (s *Store) mutateFilter(op string, req queue.MessageManageFilterRequest) (n
 			body["preview_only"] = true
 		}
 		setLimit(c, w, req.Limit, func(l int) { body["limit"] = l })
-		err = s.httpDo(c, "POST", path, body, auditHeaders(w, c), &ans)
+		err = s.httpDo(c, "POST", path, body, auditHeaders(w), &ans)
 	}
 	if err != nil {
 		return 0, 0, false, err
@@ -648,4 +647,3 @@ func (s *Store) ListDead(req queue.DeadListRequest) (queue.DeadListResponse, err
 }
 
 var _ queue.Store = (*Store)(nil)
-var _ = l0.TickTime
